@@ -4,6 +4,7 @@ package witness
 
 import (
 	"fmt"
+	"net"
 	"testing"
 	"time"
 
@@ -90,5 +91,43 @@ func TestF17_SharedTagReorder(t *testing.T) {
 			t.Fatalf("predecessor parked at %s: replies under tag 5 arrived as %v, want Rstat first", point, order)
 		}
 		c.Close()
+	}
+}
+
+type twice struct{ *ops }
+
+func (o twice) Stat(r *g.SrvReq) {
+	r.RespondRstat(&g.Dir{Name: "first"})
+	r.RespondRstat(&g.Dir{Name: "second-answer"})
+	close(o.gate["answered"])
+}
+
+// F-24: a second answer to an already answered request must not produce a second reply — nor
+// rewrite the first one while the writer is sending it.
+func TestF24_SecondAnswerRewritesReply(t *testing.T) {
+	o := twice{&ops{gate: map[string]chan bool{"answered": make(chan bool)}}}
+	srv := &g.Srv{Msize: 8192}
+	if !srv.Start(o) {
+		t.Fatal("Start")
+	}
+	a, c := net.Pipe()
+	srv.NewConn(conn{a})
+	version(t, c, 8192, "9P2000")
+	attach(t, c, 1)
+	// hold the writer between taking the reply and stamping its tag
+	g.VerifSetHook(func(p string, args ...interface{}) {
+		if p == "send.take" {
+			if r, ok := args[0].(*g.SrvReq); ok && r.VerifTag() == 7 {
+				<-o.gate["answered"]
+			}
+		}
+	})
+	defer g.VerifSetHook(nil)
+	fc := g.NewFcall(8192)
+	g.PackTstat(fc, 1)
+	send(t, c, fc, 7)
+	r := recv(t, c, false)
+	if r.Type != g.Rstat || r.Tag != 7 || r.Dir.Name != "first" {
+		t.Fatalf("reply to the request: type %d tag %d name %q, want the first answer (Rstat, tag 7, name \"first\")", r.Type, r.Tag, r.Dir.Name)
 	}
 }
